@@ -35,6 +35,10 @@ def local_results(shape, n):
         out = s.accumulate(lambda a, x: a + x, start=0)
     elif shape == "starmap":
         out = s.map(lambda x: (x, x)).starmap(lambda a, b: (a + b) * 5)
+    elif shape == "map_kw":
+        out = s.map(lambda x: x * 10 + 7 + 3 + 1)
+    elif shape == "zip_starmap_kw":
+        out = s.map(lambda x: x).zip(s.map(lambda x: x + 1)).starmap(lambda a, b: (a + b) * 5 + 7 + 2)
     elif shape == "zip":
         out = s.map(lambda x: x * 10).zip(s.map(lambda x: x + 1))
     elif shape == "sliding":
@@ -59,6 +63,10 @@ def build(shape, src):
         return d.accumulate(F.gated_add, start=0).gather()
     if shape == "starmap":
         return d.map(F.dup).starmap(F.gated_pair5).gather()
+    if shape == "map_kw":
+        return d.map(F.gated_x10_kw, key=7, retries=3, z=1).gather()
+    if shape == "zip_starmap_kw":
+        return d.map(F.ident).zip(d.map(F.inc)).starmap(F.pair_kw, key=7, priority=2).gather()
     if shape == "zip":
         return d.map(F.gated_x10).zip(d.map(F.inc)).gather()
     if shape == "sliding":
@@ -151,7 +159,7 @@ async def amain(a):
     rng = random.Random(a.seed)
     client = await Client(processes=False, asynchronous=True, dashboard_address=None, n_workers=1, threads_per_worker=16)
     runs = []
-    shapes = ["map", "map_buffer", "map_map", "accumulate", "starmap"]
+    shapes = ["map", "map_buffer", "map_map", "accumulate", "starmap", "zip", "map_kw", "zip_starmap_kw"]
     n = 3
     try:
         for shape in shapes:
